@@ -154,7 +154,11 @@ class Diverged(Exception):
 class Monitor(object):
     def __init__(self, touched, fault=None, keep_events=True):
         self.touched = tuple(touched)
-        self.fault = fault
+        # one Fault, or a chain [A, B, ...]: B becomes active only after A was delivered
+        # (a failure while the first failure is being handled)
+        self.queue = list(fault) if isinstance(fault, (list, tuple)) else ([fault] if fault else [])
+        self.fault = self.queue.pop(0) if self.queue else None
+        self.fired_all = []
         self.keep = keep_events
         self.events = []          # dicts (recording) or None placeholders (injected runs)
         self.n = 0
@@ -198,9 +202,12 @@ class Monitor(object):
             if f.identity is not None and f.identity != ident:
                 self.diverged = dict(expected=list(f.identity), got=list(ident))
                 self.fault = None
+                self.queue = []
                 return
-            self.fired = ev
-            self.fault = None
+            if self.fired is None:
+                self.fired = ev
+            self.fired_all.append(ev)
+            self.fault = self.queue.pop(0) if self.queue else None
             raise make_exception(f.exc_name)
 
     def on_call(self, code, off, callable_, arg0):
